@@ -23,6 +23,9 @@ pub struct Resolver<'a> {
     in_func_call_name: bool,
 
     pub id: IdGenerator<usize>,
+
+    /// Number of user functions whose bodies are being resolved, one inside the other.
+    function_depth: usize,
 }
 
 #[derive(Default, Clone)]
@@ -36,6 +39,7 @@ impl Resolver<'_> {
             default_namespace: None,
             in_func_call_name: false,
             id: IdGenerator::new(),
+            function_depth: 0,
         }
     }
 }
